@@ -279,6 +279,9 @@ func Tok(fn, v int64) int64 {
 	return v
 }
 
+// PartialOK: does the function's data type support partial updates (coq: fn_partial)?
+func PartialOK(fn int64) bool { return fn != 15 && fn != 25 && fn != 26 }
+
 // DataValue builds the data of function fn carrying token v (0 = empty value).
 func DataValue(fn, v int64) any {
 	idx, ok := cmdFieldFor(Fns[fn])
@@ -348,6 +351,12 @@ func cmdFnTok(c model.CmdType) (int64, int64) {
 func init() {
 	for id, f := range Fns {
 		fnIds[f] = id
+	}
+	// the model's fn_partial table against FunctionData.SupportsPartialWrite
+	for _, fd := range spine.CreateFunctionData[api.FunctionDataCmdInterface](model.FeatureTypeTypeGeneric) {
+		if id, ok := fnIds[fd.FunctionType()]; ok && id >= 11 && fd.SupportsPartialWrite() != PartialOK(id) {
+			panic(fmt.Sprintf("partial update support of function %d differs from the model's fn_partial table", id))
+		}
 	}
 	// self-check of the token encoding: JSON round trip for every data function
 	for _, fn := range append([]int64{2}, FnsOfType(4)...) {
@@ -665,6 +674,7 @@ type Dgram struct {
 	Ack      bool  // ackRequest: true
 	AckFalse bool  // ackRequest present and false (only when !Ack); neither: the element is absent
 	Result   bool  // classifier result
+	ResultPl bool  // classifier result (with Result) whose cmd is NOT resultData but the payload Pl
 	Err      int64 // resultData.errorNumber
 	Cls      int64 // 0 read 1 reply 2 notify 3 write 4 call
 	Pl       Payload
@@ -689,11 +699,17 @@ func OpInbound(p int64, d Dgram) hx.Zs {
 		ack = 2
 	}
 	z = append(z, d.Ctr, d.Ref, ack)
-	if d.Result {
+	if d.Result && !d.ResultPl {
 		return append(z, 0, d.Err, d.Fct, 0)
 	}
-	z = append(z, 1, d.Cls, d.Pl.Kind)
+	if d.Result {
+		z = append(z, 2, d.Pl.Kind)
+	} else {
+		z = append(z, 1, d.Cls, d.Pl.Kind)
+	}
 	switch d.Pl.Kind {
+	case 10: // a resultData element under another classifier
+		z = append(z, d.Pl.V)
 	case 0:
 		z = append(z, d.Pl.Fn, Tok(d.Pl.Fn, d.Pl.V))
 	case 1:
@@ -717,15 +733,21 @@ func (r *rd) dgram() Dgram {
 	ack := r.n()
 	d.Ack = ack == 1
 	d.AckFalse = ack == 2
-	if r.n() == 0 {
+	switch r.n() {
+	case 0:
 		d.Result = true
 		d.Err = r.n()
 		r.tail(&d)
 		return d
+	case 2:
+		d.Result, d.ResultPl = true, true
+	default:
+		d.Cls = r.n()
 	}
-	d.Cls = r.n()
 	d.Pl.Kind = r.n()
 	switch d.Pl.Kind {
+	case 10:
+		d.Pl.V = r.n()
 	case 0:
 		d.Pl.Fn = r.n()
 		d.Pl.V = r.n()
@@ -774,14 +796,22 @@ func (d Dgram) datagram() model.DatagramType {
 		h.AckRequest = util.Ptr(false)
 	}
 	var cmd model.CmdType
-	if d.Result {
+	if d.Result && !d.ResultPl {
 		cmd.ResultData = &model.ResultDataType{ErrorNumber: util.Ptr(model.ErrorNumberType(d.Err))}
 	} else {
 		c := d.Pl.Call
 		t := FeatureType(c.Type)
 		switch d.Pl.Kind {
+		case 10:
+			cmd.ResultData = &model.ResultDataType{ErrorNumber: util.Ptr(model.ErrorNumberType(d.Pl.V))}
 		case 0:
 			cmd = CmdFor(d.Pl.Fn, d.Pl.V)
+			if !d.Result && d.Cls == 3 && d.Sel != 0 && !PartialOK(d.Pl.Fn) {
+				// a partial write of a function whose data type has no partial updates: rejected by the data model
+				cmd.Function = util.Ptr(Fns[d.Pl.Fn])
+				cmd.Filter = []model.FilterType{{CmdControl: &model.CmdControlType{Partial: &model.ElementTagType{}}}}
+				stats["datagram:partial-write-without-partial-support"]++
+			}
 		case 1:
 			cmd.NodeManagementDetailedDiscoveryData = d.Pl.Msg.data()
 			if d.Cls == 2 {
@@ -1380,6 +1410,12 @@ func account(op hx.Zs, out []hx.Zs) {
 	r := &rd{z: op, i: 2}
 	d := r.dgram()
 	cls := "result"
+	if d.ResultPl {
+		cls = "result-without-resultData"
+	}
+	if !d.Result && d.Pl.Kind == 10 {
+		stats["datagram:resultData-under-another-classifier"]++
+	}
 	if !d.Result {
 		cls = []string{"read", "reply", "notify", "write", "call"}[d.Cls]
 	}
